@@ -95,7 +95,8 @@ Fixpoint rue_encode_loop (fuel : nat) (s : bytes) : option bytes :=
       | _ =>
           match utf8_decode s with
           | (r, w) =>
-              if r =? rune_error then None
+              (* width 1 tells an invalid byte from a valid U+FFFD (width 3) *)
+              if (r =? rune_error) && Nat.eqb w 1 then None
               else
                 let out :=
                   if (r =? 92) || (r =? 10) then
